@@ -168,10 +168,10 @@ func cmdCheck(args []string) {
 		// keep the obligations that belong to this property
 		var keep []*obligation
 		for _, o := range r.obls {
-			if o.onlyProp != "" && o.onlyProp != prop {
+			if o.onlyProp != "" && !propMatch(o.onlyProp, prop) {
 				continue
 			}
-			if tagOnly[k] && o.onlyProp != prop && !o.canary {
+			if tagOnly[k] && !propMatch(o.onlyProp, prop) && !o.canary {
 				continue
 			}
 			keep = append(keep, o)
@@ -230,10 +230,10 @@ func cmdCheck(args []string) {
 		}
 		nOb, nDis := 0, 0
 		for _, o := range r.obls {
-			if o.onlyProp != "" && o.onlyProp != prop {
+			if o.onlyProp != "" && !propMatch(o.onlyProp, prop) {
 				continue
 			}
-			if tagOnly[r.key] && o.onlyProp != prop && !o.canary {
+			if tagOnly[r.key] && !propMatch(o.onlyProp, prop) && !o.canary {
 				continue
 			}
 			if reason, un := isUnclaimed(o.name); un {
